@@ -177,6 +177,9 @@ def cases(shard, nshards, seed, tier):
         # check the parent table, derive a sub-table with plain pandas, fit (as the splitter does), write, read
         if i % 10 == 7 and mine():
             yield {"family": "derived-subtable", "i": i}
+        # two parsed tables joined with plain pandas (pd.concat keeps both indexes: labels are not unique), then written
+        if i % 20 == 11 and mine():
+            yield {"family": "concatenated-frames", "i": i}
     files = [f for f in gen3d.corpus_files() if os.path.getsize(os.path.join(core.REPO, f)) < (150_000 if tier == "quick" else 900_000)]
     for fn in files:
         for path in ("pdb-pdb", "cif-cif", "pdb-cif-pdb", "cif-pdb-cif"):
@@ -327,6 +330,39 @@ def run_case(case, rec):
             return
         diff = compare(sub, got)
         rec.check("roundtrip.derived-subtable", diff is None, lambda: {"ctx": ctx, "first-difference": diff})
+        return
+    if fam == "concatenated-frames":
+        import pandas as pd
+
+        from rnapolis import parser_v2 as p2
+
+        rng = random.Random(f"{seed}:C09:concat:{case['i']}")
+        fmt = rng.choice(["pdb", "cif"])
+        a = gentab.random_table(rng, nmodels=1, nchains=1, altlocs=False, dup_names=False, close_pairs=False, null_occ=False, wide=False, serial_start=0)
+        b = gentab.random_table(rng, nmodels=1, nchains=1, altlocs=False, dup_names=False, close_pairs=False, null_occ=False, wide=False, serial_start=len(a))
+        used = {r["chain"] for r in a}
+        for r in b:
+            if r["chain"] in used:
+                r["chain"] = next(c for c in "KLMNOPQ" if c not in used)
+        ctx = {"i": case["i"], "family": fam, "source-format": fmt}
+        if not (emit.fits_pdb(a) and emit.fits_pdb(b)) or any(not (r["chain"] or "").strip() for r in a + b):
+            rec.skip("roundtrip.concatenated-frames", "outside-PDB-limits / blank chain")
+            return
+        rec.mark_nontrivial(True)
+        _cur["ctx"] = ctx
+        try:
+            parse = (lambda rows: p2.parse_pdb_atoms(emit.emit_pdb(rows))) if fmt == "pdb" else (lambda rows: p2.parse_cif_atoms(emit.emit_cif(rows)))
+            da, db = parse(a), parse(b)
+            df = pd.concat([da, db])  # index labels 0..len(a)-1 occur twice
+            df.attrs["format"] = da.attrs.get("format")
+            got_c = norm_df(p2.parse_cif_atoms(p2.write_cif(df)))
+            got_p = norm_df(p2.parse_pdb_atoms(p2.write_pdb(df)))
+        except Exception as e:
+            rec.violation("roundtrip.no-crash", {"ctx": ctx, "exception": repr(e)[:300]}, mechanism=f"crash:{type(e).__name__}")
+            return
+        for how, got in (("write_cif", got_c), ("write_pdb", got_p)):
+            diff = compare(a + b, got)
+            rec.check("roundtrip.concatenated-frames", diff is None, lambda: {"ctx": ctx, "writer": how, "first-difference": diff})
         return
     if fam == "hostile":
         rng = random.Random(f"C09:hostile:{case['h']}")
